@@ -189,6 +189,9 @@ def history_case(case):
     if family in M.SPARSE:
         kw["alpha"] = 0.05
     twice = "twice" in history                       # constraints added in two calls (other factor for the cannot-link pairs)
+    late_bs = None
+    if "setbs" in history and family != "CategoricalModel":
+        late_bs, kw["batch_size"] = (bs or 2), None    # decorated with the default batch size, mini-batches requested afterwards by set_params
     if "verbose" in history:
         kw["verbose"] = True
     model = M.make(family, **kw)
@@ -213,6 +216,10 @@ def history_case(case):
         for ev in history:
             marks.append(ev)
             if ev in ("twice", "verbose"):
+                continue
+            if ev == "setbs":
+                if late_bs is not None:
+                    model.set_params(batch_size=late_bs)
                 continue
             if ev == "fit":
                 with contextlib.redirect_stdout(io.StringIO()):
@@ -265,7 +272,7 @@ def explorers(tier, seed):
     for family in TRAIN_MODELS + ["SparseMLPModel"]:
         for gemini in ("mmd_ova", "mi"):
             for bs in ([None] if family == "CategoricalModel" else [2, None]):
-                hists = [("fit", "fit"), ("fit", "query", "fit"), ("fit", "fit", "fit"), ("twice", "fit"), ("twice", "fit", "fit"), ("verbose", "fit"), ("verbose", "twice", "fit")] + ([("path",), ("fit", "path"), ("path", "fit")] if family in M.SPARSE else [])
+                hists = [("fit", "fit"), ("fit", "query", "fit"), ("fit", "fit", "fit"), ("twice", "fit"), ("twice", "fit", "fit"), ("verbose", "fit"), ("verbose", "twice", "fit"), ("setbs", "fit"), ("fit", "setbs", "fit")] + ([("path",), ("fit", "path"), ("path", "fit")] if family in M.SPARSE else [])
                 for h in hists:
                     c4.append((family, 3.0, bs, gemini, h, seed))
     return [
